@@ -1,0 +1,193 @@
+//go:build verif
+
+package aggregator
+
+// Verification hook (add-only, build tag verif): canonical, sorted dump of the unexported
+// in-memory aggregator context. Nothing here is reachable without the tag.
+
+import (
+	"math/big"
+	"sort"
+)
+
+type VerifC12Val struct {
+	Addr  string
+	Power string
+}
+
+type VerifC12Round struct {
+	FeederID    uint64
+	BasedBlock  uint64
+	NextRoundID uint64
+	Status      int32
+}
+
+type VerifC12Set struct {
+	Key   string
+	Size  int
+	Items []string
+}
+
+type VerifC12NonceSet struct {
+	Key   string
+	Size  int
+	Items []int32
+}
+
+type VerifC12PP struct {
+	Price string
+	Power string
+}
+
+type VerifC12CalcRound struct {
+	DetID     string
+	Cap       int
+	Prices    []VerifC12PP
+	HasPrice  bool
+	Price     string
+	Timestamp string
+}
+
+type VerifC12CalcSource struct {
+	SourceID uint64
+	Cap      int
+	Count    int
+	Rounds   []VerifC12CalcRound
+}
+
+type VerifC12Slot struct {
+	SourceID   uint64
+	HasPrice   bool
+	Price      string
+	Decimal    int32
+	Timestamp  string
+	DetRoundID string
+}
+
+type VerifC12Report struct {
+	Validator string
+	HasPrice  bool
+	Price     string
+	Power     string
+	Slots     []VerifC12Slot
+}
+
+type VerifC12DS struct {
+	SourceID uint64
+	DetID    string
+}
+
+type VerifC12Worker struct {
+	FeederID uint64
+	Sealed   bool
+	Price    string
+	Decimal  int32
+	HasF     bool
+	HasC     bool
+	HasA     bool
+	// filter
+	MaxNonce      int
+	MaxDetID      int
+	FilterNonces  []VerifC12NonceSet
+	FilterSources []VerifC12Set
+	// calculator
+	CalcValidatorLength int
+	CalcTotalPower      string
+	CalcSources         []VerifC12CalcSource
+	// aggregator
+	AggHasFinal    bool
+	AggFinal       string
+	AggReports     []VerifC12Report
+	AggReportPower string
+	AggTotalPower  string
+	AggDS          []VerifC12DS
+}
+
+type VerifC12Dump struct {
+	HasParams  bool
+	Validators []VerifC12Val
+	TotalPower string
+	Rounds     []VerifC12Round
+	Workers    []VerifC12Worker
+}
+
+func verifC12Big(b *big.Int) string {
+	if b == nil {
+		return "nil"
+	}
+	return b.String()
+}
+
+// VerifC12Dump returns the canonical dump (maps sorted by key, slices in their own order).
+func (agc *AggregatorContext) VerifC12Dump() VerifC12Dump {
+	d := VerifC12Dump{}
+	if agc == nil {
+		return d
+	}
+	d.HasParams = agc.params != nil
+	d.TotalPower = verifC12Big(agc.totalPower)
+	for a, p := range agc.validatorsPower {
+		d.Validators = append(d.Validators, VerifC12Val{a, verifC12Big(p)})
+	}
+	sort.Slice(d.Validators, func(i, j int) bool { return d.Validators[i].Addr < d.Validators[j].Addr })
+	for id, r := range agc.rounds {
+		d.Rounds = append(d.Rounds, VerifC12Round{id, r.basedBlock, r.nextRoundID, int32(r.status)})
+	}
+	sort.Slice(d.Rounds, func(i, j int) bool { return d.Rounds[i].FeederID < d.Rounds[j].FeederID })
+	for id, w := range agc.aggregators {
+		if w == nil {
+			continue
+		}
+		x := VerifC12Worker{FeederID: id, Sealed: w.sealed, Price: w.price, Decimal: w.decimal,
+			HasF: w.f != nil, HasC: w.c != nil, HasA: w.a != nil}
+		if w.f != nil {
+			x.MaxNonce = w.f.maxNonce
+			x.MaxDetID = w.f.maxDetID
+			for k, s := range w.f.validatorNonce {
+				x.FilterNonces = append(x.FilterNonces, VerifC12NonceSet{k, s.VerifC12Size(), s.VerifC12Items()})
+			}
+			sort.Slice(x.FilterNonces, func(i, j int) bool { return x.FilterNonces[i].Key < x.FilterNonces[j].Key })
+			for k, s := range w.f.validatorSource {
+				x.FilterSources = append(x.FilterSources, VerifC12Set{k, s.VerifC12Size(), s.VerifC12Items()})
+			}
+			sort.Slice(x.FilterSources, func(i, j int) bool { return x.FilterSources[i].Key < x.FilterSources[j].Key })
+		}
+		if w.c != nil {
+			x.CalcValidatorLength = w.c.validatorLength
+			x.CalcTotalPower = verifC12Big(w.c.totalPower)
+			for sid, l := range w.c.deterministicSource {
+				cs := VerifC12CalcSource{SourceID: sid, Cap: cap(l.roundPricesList), Count: l.roundPricesCount}
+				for _, r := range l.roundPricesList {
+					cr := VerifC12CalcRound{DetID: r.detID, Cap: cap(r.prices), HasPrice: r.price != nil, Price: verifC12Big(r.price), Timestamp: r.timestamp}
+					for _, pp := range r.prices {
+						cr.Prices = append(cr.Prices, VerifC12PP{verifC12Big(pp.price), verifC12Big(pp.power)})
+					}
+					cs.Rounds = append(cs.Rounds, cr)
+				}
+				x.CalcSources = append(x.CalcSources, cs)
+			}
+			sort.Slice(x.CalcSources, func(i, j int) bool { return x.CalcSources[i].SourceID < x.CalcSources[j].SourceID })
+		}
+		if w.a != nil {
+			x.AggHasFinal = w.a.finalPrice != nil
+			x.AggFinal = verifC12Big(w.a.finalPrice)
+			x.AggReportPower = verifC12Big(w.a.reportPower)
+			x.AggTotalPower = verifC12Big(w.a.totalPower)
+			for _, r := range w.a.reports {
+				rr := VerifC12Report{Validator: r.validator, HasPrice: r.price != nil, Price: verifC12Big(r.price), Power: verifC12Big(r.power)}
+				for sid, s := range r.prices {
+					rr.Slots = append(rr.Slots, VerifC12Slot{sid, s.price != nil, verifC12Big(s.price), s.decimal, s.timestamp, s.detRoundID})
+				}
+				sort.Slice(rr.Slots, func(i, j int) bool { return rr.Slots[i].SourceID < rr.Slots[j].SourceID })
+				x.AggReports = append(x.AggReports, rr)
+			}
+			for sid, id := range w.a.dsPrices {
+				x.AggDS = append(x.AggDS, VerifC12DS{sid, id})
+			}
+			sort.Slice(x.AggDS, func(i, j int) bool { return x.AggDS[i].SourceID < x.AggDS[j].SourceID })
+		}
+		d.Workers = append(d.Workers, x)
+	}
+	sort.Slice(d.Workers, func(i, j int) bool { return d.Workers[i].FeederID < d.Workers[j].FeederID })
+	return d
+}
